@@ -332,7 +332,7 @@ func body(s *simrt.Sim, tier string) {
 	for i, n := 0, 2+s.Choose(6, "nsteps"); i < n; i++ {
 		s.Sleep(steps[s.Choose(len(steps), "step")])
 		// quiescent: the rotation loop is parked in its select
-		if !s.WaitUntil("quiesce", 20*time.Second, func() bool { return s.PredBlockedIn("runner", "runRotation") }) {
+		if !s.WaitUntil("quiesce", 20*time.Second, func() bool { return s.PredAtRest("runner", "sleep") }) {
 			s.Fail("rotation-stuck", "the rotation loop did not come to rest\n"+s.Dump())
 			return
 		}
